@@ -90,6 +90,9 @@ func genFZCases(r *Rng, tier string, n int) []corrCase {
 		if kcls == "" {
 			kcls = "other"
 		}
+		if e != nil {
+			kcls = "ctor-" + kcls // NewReader itself failed (an empty source gives io.EOF there, as in compress/gzip): never a clean end of data
+		}
 		ends[kcls]++
 		cs = append(cs, corrCase{line: fmt.Sprintf("FZ %s %s %d %d %d", hexOrDash(f), kcls, len(out), fnv64(out), len(left)), expect: "ok",
 			desc: fmt.Sprintf("zlib L%d (%s), %d bytes -> %d bytes, %s, %d left", lvl, desc, len(f), len(out), kcls, len(left))})
@@ -197,6 +200,9 @@ func genFGCases(r *Rng, tier string, n int) []corrCase {
 		kcls := errClass(err)
 		if kcls == "" {
 			kcls = "other"
+		}
+		if e != nil {
+			kcls = "ctor-" + kcls // NewReader itself failed (an empty source gives io.EOF there, as in compress/gzip): never a clean end of data
 		}
 		ends[kcls]++
 		cs = append(cs, corrCase{line: fmt.Sprintf("FG %s %s %d %d", hexOrDash(f), kcls, len(out), fnv64(out)), expect: "ok",
